@@ -2211,8 +2211,13 @@ class Interp:
                 await asyncio.sleep(mt + 1 - now + 0.01)
         if not os.path.isdir(path):
             return  # deleted meanwhile
-        keys = self.live_keys(box)
-        nxt = (max(keys) if keys else 0) + 1
+        # (like mailbox.MH.add(): the highest all-digit name in the folder plus one - a sub-folder such as a/7 counts,
+        # its name is taken)
+        try:
+            taken = [int(x) for x in os.listdir(path) if x.isdigit()]
+        except OSError:
+            return
+        nxt = (max(taken) if taken else 0) + 1
         toks = op.get("toks") or [self.new_tok() for _ in range(count)]
         new_keys = []
         date = int(self.env.wall())
